@@ -523,7 +523,7 @@ pub fn replay_main(v: &Value, path: &str, quiet: bool) -> i32 {
             return EXIT_HARNESS;
         }
     };
-    if quiet { std::panic::set_hook(Box::new(|_| {})); }
+    if quiet { crate::common::quiet_panics(); }
     let class = v["class"].as_str().unwrap_or("");
     let findings = if class.starts_with("ct-") {
         let scratch = scratch_base();
@@ -561,7 +561,7 @@ pub fn check_main(tier: &str) -> i32 {
     let ct_count: u64 = std::env::var("VERIF_D_CT").ok().and_then(|s| s.parse().ok()).unwrap_or(if thorough { 600 } else { 64 });
     let ct_seeds = if thorough { 5 } else { 3 };
     let w = ncpu() as u64;
-    std::panic::set_hook(Box::new(|_| {}));
+    crate::common::quiet_panics();
     println!("engine D: property=C15 tier={tier} VERIF_SEED={seed} grammars={count}x{nseeds} seeds, compile-time builds={ct_count}x{ct_seeds} processes, threads={w}");
     struct Tot {
         evals: u64,
